@@ -186,8 +186,10 @@ pub fn run_c18(ctx: &mut Ctx) {
     let n = ctx.budget(4000, 200000);
     for i in 0..n {
         let vocab = [(0, 3), (0, 6), (0, WORDS.len()), (6, WORDS.len())][(i % 4) as usize];
-        let a = text(ctx, if i % 10 == 0 { 12 } else { 6 }, vocab);
-        let b = text(ctx, if i % 10 == 0 { 12 } else { 6 }, vocab);
+        let long = i % 400 == 9;
+        let max_words: u64 = if long { 150 } else if i % 10 == 0 { 12 } else { 6 };
+        let a = text(ctx, max_words as usize, vocab);
+        let b = text(ctx, max_words as usize, vocab);
         let ic = ctx.rng.random_bool(0.5);
         ctx.case("matchw", &req_matchw(&a, &b, ic));
         if i % 2 == 0 {
